@@ -30,6 +30,8 @@ type e1Profile struct {
 }
 
 var e1Profiles = map[string]e1Profile{
+	"C11": {prop: "C11", attackWeight: 30, steps: [2]int{30, 50}, concurrent: true, restartPct: 2, quickCases: 300, thoroughCases: 8000,
+		rule: "E1 histories with the harness as both view consumers (gossip reader and state-machine reader each randomly stalled and resumed, round entrances issued while views shift, nil / fully-voted / jumped rounds, replays), judged at the consumer side: per (height, round) strictly increasing versions, proposals and per-target signature sets only grow; when a round the harness ended by nil quorum or by a fully voted round is followed by a later round at the gossip reader, the justifying precommits must have arrived first; at quiescence (no output during 3 x 24 served snapshot requests) the last views each consumer holds equal the mirror's VotingView/CommittingView. Race detector sub-run (a view mutated after delivery is a race between kernel and reader). Non-trivial = distinct histories with >= 1 quiescence comparison and >= 20 received views judged."},
 	"C09": {prop: "C09", attackWeight: 65, steps: [2]int{40, 60}, concurrent: true, restartPct: 2, quickCases: 400, thoroughCases: 15000,
 		rule: "E1 histories at full hostile width (every height/round offset -3..+3, every key-id length, every commit-proof shape, replays, state-machine entrances and actions), sequential then 2-6 concurrent deliverers, with stalled gossip/state-machine readers; two thirds of the messages go through the shipped AcceptAllValid/DropDuplicate feedback mappers. Monitors: hook Catch on the kernel goroutine and recover around every Handle* call (panic => violation keyed by site), logical livelock bound on HandleProposedHeader's restart label, defined-result and defined-feedback checks, liveness probe (VotingView must answer after every input). Non-trivial = distinct histories with >= 10 hostile messages handled."},
 	"C01": {prop: "C01", attackWeight: 45, steps: [2]int{30, 60}, concurrent: true, restartPct: 2, quickCases: 240, thoroughCases: 12000,
@@ -135,6 +137,8 @@ func runE1Case(r *verifkit.Run, pf e1Profile, id string, rng *rand.Rand) map[str
 			cs.violate("C09", "C09:mirror-stopped-serving", "the mirror kernel did not answer two consecutive view requests (60 s each) and did not panic", map[string]any{"goroutines": string(buf)})
 		}
 		n.stop()
+		mo.c11consume(n.takeGossip(), n.takeSM())
+		mo.c11.reset()
 		restarts++
 		if restarts > 3 {
 			cs.ended = "too many crashes"
@@ -149,6 +153,7 @@ func runE1Case(r *verifkit.Run, pf e1Profile, id string, rng *rand.Rand) map[str
 		}
 		cs.logf("RESTARTED after crash")
 		mo.havePos = false
+		mo.c11.reset()
 		return true
 	}
 
@@ -157,6 +162,8 @@ func runE1Case(r *verifkit.Run, pf e1Profile, id string, rng *rand.Rand) map[str
 	for s := 0; s < steps && alive; s++ {
 		if rng.IntN(100) < pf.restartPct {
 			n.stop()
+			mo.c11consume(n.takeGossip(), n.takeSM())
+			mo.c11.reset()
 			if key, msg := n.start(); key != "" {
 				cs.violate("C10", "C10:restart-failed:"+key, "mirror could not be restarted on its own stores: "+msg, nil)
 				cs.ended = "restart failed"
@@ -166,6 +173,7 @@ func runE1Case(r *verifkit.Run, pf e1Profile, id string, rng *rand.Rand) map[str
 			cs.logf("RESTART (clean)")
 			cs.count("restart.clean")
 			mo.havePos = false
+			mo.c11.reset()
 		}
 		if pf.prop == "C09" || pf.prop == "C11" {
 			// readers of the two view channels stall and resume
@@ -245,6 +253,10 @@ func runE1Case(r *verifkit.Run, pf e1Profile, id string, rng *rand.Rand) map[str
 		}
 	}
 
+	if alive && pf.prop == "C11" {
+		mo.c11quiesce()
+	}
+
 	// final: all touched rounds, all committed proofs
 	cs.mu.Lock()
 	top := cs.topCommitted
@@ -263,6 +275,10 @@ func runE1Case(r *verifkit.Run, pf e1Profile, id string, rng *rand.Rand) map[str
 	cs.counter["all_invalid_judged"] += int64(g.allInvalidJudged)
 	cs.counter["late_conflicting_for_committed"] += int64(g.lateForCommitted)
 	cs.counter["forged_list_copies_delivered"] += int64(g.forgedCopies)
+	cs.counter["c11_views_judged"] += int64(mo.c11.viewsJudged)
+	cs.counter["c11_updates_judged"] += int64(mo.c11.updatesJudged)
+	cs.counter["c11_quiescence_comparisons"] += int64(mo.c11.quiescences)
+	cs.counter["c11_rounds_ended_by_harness"] += int64(len(mo.c11.endedRounds))
 	cs.counter["minority_only_messages_judged"] += int64(g.minorityJudged)
 
 	nontrivial := false
@@ -279,6 +295,8 @@ func runE1Case(r *verifkit.Run, pf e1Profile, id string, rng *rand.Rand) map[str
 		nontrivial = top >= w.initH && mo.setChanges >= 1 && g.forgedCopies >= 1
 	case "C09":
 		nontrivial = g.attacks >= 10
+	case "C11":
+		nontrivial = mo.c11.quiescences >= 1 && mo.c11.viewsJudged >= 20
 	}
 	if nontrivial {
 		h := sha256.New()
